@@ -36,6 +36,8 @@ class SlcController(Module):
         self.io_words = io_words
         self.pccc_log = []
         self.proc_type = "1747-L552"
+        # data-log queues (file type 0xA5): a read returns - and consumes - the oldest record of the queue
+        self.datalog = {0: [b"01/02/2026,10:11:12,%d,7" % i for i in range(40)], 1: [b"rec%d" % i for i in range(40)]}
 
     def elem_size(self, letter):
         if letter in ("I", "O"):
@@ -108,6 +110,13 @@ class SlcController(Module):
             rec["why"] = str(e)
             return reply(STS_ILLEGAL)
         rec.update(size=size, file=fnum, ftype=ftype, elem=elem, sub=sub, forms=(f1, f2, f3))
+        if ftype == 0xA5 and fnc == 0xA2:
+            q = self.datalog.get(elem)
+            rec["op"] = "datalog"
+            if not q:
+                rec["why"] = "data-log queue empty or absent"
+                return reply(STS_ADDR)
+            return reply(STS_OK, q.pop(0)[:size])
         if ftype not in FILE_TYPES:
             rec["why"] = "unknown file type"
             return reply(STS_ILLEGAL)
